@@ -3,9 +3,9 @@ CONSTANTS
   MaxComps = 3
   MaxFlows = 3
   OutKinds = {1, 2}
-  FlowKinds = {1}
+  FlowKinds = {3}
   MaxOps = 2
-  Thin = 64
+  Thin = 96
   ThinRes = 0
   FullDepth = 1
   SeedThin = 1
